@@ -143,6 +143,10 @@ def main():
     c.rule = "exact family: %d models x %d betas x ~10 operator pairs (density-density, spin-flip, random) x 5 bosonic frequencies + 4 times x 4 subtraction modes; non-trivial = distinct (model, quadruple) with Lehmann terms" % (len(ms), len(betas))
     c.trusted = ["TLC", "tools/exact.py comparator"]
     c.assumptions = ["exact family only", "allowed deviation: 1e-9 relative + dropped-term bound over pairs of distinct levels (1e-8 each)"]
+    # the container every part accumulates its Lehmann terms in (spec/TermList.tla): like terms are merged, nothing is lost except by the
+    # negligibility rule -- every add_term history of a catalogue with chains of nearly equal poles, replayed on the real template
+    import termlist
+    termlist.run(c, ["SU"], thorough)
     # call histories of the documented workflow (spec/Workflow.tla): repeated prepare()/compute() are no-ops, a call changes the data of
     # its own object only, and whatever the history, the finished object holds the data of the canonical linear order
     import workflow
